@@ -213,6 +213,8 @@ def explore(module, cls, maxsizes=(1, 2), purges=(False, True), universe=3, dept
 
 def _short(op):
     o = op['op']
+    if o == 'siblings':
+        return 'scenario with several decorated functions'
     if o == 'call':
         c = op['call']
         tag = 'raise' if c['user_raises'] else ('keygen-raise' if c['keygen_raises'] else ('unhashable' if op.get('unhashable_call') else ''))
@@ -302,9 +304,125 @@ def linear_search(module, cls, only, depth=7, budget_s=40.0, universe=4, recursi
     return None
 
 
+# ---- siblings: several decorated functions / decorator objects / cache objects in one process ---------------------------------
+def sibling_probe(module, cls):
+    """Three short scenarios on the real code in which more than one decorated function exists (the proofs and the explorer look
+    at one function at a time): state that should belong to one function, one decorator object or one cache object must not be
+    shared with another.  -> [(property, clause, message)]"""
+    import importlib
+    klepto, ka, km = WR._mods()
+    C = getattr(importlib.import_module(module), cls)
+    pol = cls.split('_')[0]
+    bounded = pol not in ('no', 'inf')
+    out = []
+
+    def F1(x, y=0):
+        F1.calls.append((x, y))
+        return ('F1', x, y)
+
+    def F2(a):
+        F2.calls.append(a)
+        return ('F2', a)
+    F1.calls, F2.calls = [], []
+
+    def mk(maxsize, cache, **kw):
+        d = dict(cache=cache, keymap=km.keymap(), **kw)
+        if bounded:
+            d['maxsize'] = maxsize
+        return C(**d)
+    # S1: one decorator object applied to two functions
+    try:
+        dec = mk(4, ka.cache(archive=ka.dict_archive()))
+        f = dec(F1)
+        g = dec(F2)
+        r = [f(1), f(2), f(1)]
+        if r != [F1(1), F1(2), F1(1)]:
+            out.append(('C01', 'result.equals_function[siblings]', 'one decorator applied to F1 and F2: F1 calls return %r' % (r,)))
+        gi, fi = tuple(g.info())[:3], tuple(f.info())[:3]
+        want_f = (0, 0, 3) if False else None
+        if gi != (0, 0, 0):
+            out.append(('C15', 'stats.per_function[siblings]', 'one decorator applied to F1 and F2: F2 was never called but reports (hit, miss, load) = %r (F1: %r)' % (gi, fi)))
+        if sum(fi) != 3:
+            out.append(('C15', 'stats.per_function[siblings]', 'F1 completed 3 calls but reports (hit, miss, load) = %r' % (fi,)))
+        if pol != 'no':
+            k = f.key(2)
+            try:
+                lv = f.lookup(2)
+            except Exception as e:      # noqa
+                lv = 'raises %r' % (e,)
+            if k not in f.__cache__() or lv != F1(2):
+                out.append(('C18', 'returns_storage_key[siblings]', 'one decorator applied to F1 and F2: F1.key(2) = %r is %sin the cache %r; F1.lookup(2) -> %r'
+                            % (k, '' if k in f.__cache__() else 'NOT ', sorted(map(repr, f.__cache__())), lv)))
+        r2 = g(5)
+        if r2 != F2(5) or f(1) != F1(1):
+            out.append(('C01', 'result.equals_function[siblings]', 'one decorator applied to F1 and F2: F2(5) -> %r, then F1(1) -> %r' % (r2, f(1))))
+    except Exception as e:      # noqa
+        out.append(('C01', 'result.equals_function[siblings]', 'one decorator applied to two functions: %r' % (e,)))
+    # S2: two decorator objects are configured before either is applied
+    try:
+        def square(x):
+            return x * x
+
+        def double(x):
+            return x + x
+        c1, c2 = ka.cache(archive=ka.dict_archive()), ka.cache(archive=ka.null_archive())
+        d1, d2 = mk(2, c1), mk(5, c2)
+        f, g = d1(square), d2(double)
+        r = (f(3), g(3), f(3), g(3))
+        if r != (9, 6, 9, 6):
+            out.append(('C01', 'result.equals_function[siblings]', 'two decorators configured, then applied to square and double: square(3), double(3), square(3), double(3) -> %r' % (r,)))
+        if f.__cache__() is not c1 or g.__cache__() is not c2 or (bounded and (f.info().maxsize, g.info().maxsize) != (2, 5)):
+            out.append(('C08', 'frame.archive_binding[siblings]', 'two decorators configured, then applied: the first function does not use the cache/maxsize it was configured with (maxsize %r / %r)'
+                        % (f.info().maxsize, g.info().maxsize)))
+    except Exception as e:      # noqa
+        out.append(('C01', 'result.equals_function[siblings]', 'two decorators, then two functions: %r' % (e,)))
+    # S3: two functions with their own caches and archives, overlapping keys, interleaved (purge off)
+    if bounded:
+        try:
+            ca, cb = ka.cache(archive=ka.dict_archive()), ka.cache(archive=ka.dict_archive())
+            na, nb = [], []
+
+            def A(x):
+                na.append(x)
+                return ('A', x)
+
+            def B(x):
+                nb.append(x)
+                return ('B', x)
+            random.seed(4242)
+            fa, fb = mk(1, ca, purge=False)(A), mk(1, cb, purge=False)(B)
+            for step in ((fb, 0), (fa, 0), (fa, 1), (fb, 1), (fb, 0), (fa, 0), (fb, 2), (fa, 2), (fb, 1)):
+                step[0](step[1])
+                for (c, nm, fn) in ((ca, 'A', A), (cb, 'B', B)):
+                    pass
+            lostb = [x for x in set(nb) if fb.key(x) not in cb and fb.key(x) not in cb.archive]
+            losta = [x for x in set(na) if fa.key(x) not in ca and fa.key(x) not in ca.archive]
+            if lostb or losta:
+                out.append(('C07', 'evicted_entries_are_archived[siblings]', 'two functions with their own caches and archives, interleaved: results for %r (A) / %r (B) are neither in memory nor in their archive'
+                            % (losta, lostb)))
+            if len(nb) != len(set(nb)) or len(na) != len(set(na)):
+                out.append(('C02', 'evals.at_most_once[siblings]', 'two functions with their own caches and archives, interleaved: evaluations A %r, B %r' % (na, nb)))
+        except Exception as e:      # noqa
+            out.append(('C02', 'evals.at_most_once[siblings]', 'two functions with their own caches: %r' % (e,)))
+    return out
+
+
+def sibling_search(module, cls, only):
+    """-> violation records in the format of the explorer (replayable with replay_history)"""
+    res = []
+    for (prop, clause, msg) in sibling_probe(module, cls):
+        if only is not None and prop not in only and clause not in only:
+            continue
+        res.append({'property': prop, 'clause': clause, 'sibling': True, 'message': msg, 'outcome': 'n/a', 'value': msg[:200],
+                    'history': [{'op': 'siblings'}], 'state': {'module': module, 'cls': cls}, 'config': {'scenario': 'several decorated functions'}})
+    return res
+
+
 def replay_history(v):
     """re-run a violation record (state + last operation) on the real code -> still violated?"""
     pol = v['state']['cls'].split('_')[0]
+    if v.get('sibling'):
+        return any(c == v['clause'] for (_, c, _) in sibling_probe(v['state']['module'], v['state']['cls']))
     if v.get('linear'):
         random.seed(4242)
         viol, _ = _run_linear(v['state'], v['history'], pol, {v['clause']})
